@@ -607,6 +607,9 @@ def _run_kani_unit(here, repo, name, tier):
                                  "checks": [{"id": c["id"], "description": c["description"], "location": c["location"], "status": c["status"]} for c in ex_checks],
                                  "source": (meta["harness_fns"].get(h["name"]) or {}).get("text", "")[:1200]})
     r["cmd"] = _condense(cmds)
+    if "@" in os.path.basename(out):
+        # a scratch tree (sensitivity run, replay of a violation): keep src/ and logs/, drop the 50-250 MB of build products
+        shutil.rmtree(os.path.join(out, "target"), ignore_errors=True)
     r["wall_s"] = round(time.time() - t0, 1)
     # de-duplicate failures that several harnesses report identically
     seen = set()
